@@ -44,7 +44,8 @@ def integer_power(x, n, one=1):
 
     while n > 0:
         if n & 1:
-            aux *= x
+            # not "aux *= x": aux may still be the caller's *one*
+            aux = aux * x
             if n == 1:
                 return aux
         x = x * x
